@@ -178,10 +178,41 @@ private:
     std::shared_ptr<Tape> last_base;
     unsigned last_n = 0;
 };
+// the same oracle with only the pure-virtual part of the interface: batches, gradients and gradient batches go through
+// the library's own default implementations (Oracle::evalArray, OracleStorage::evalDerivs, Oracle::evalDerivArray)
+class ExprOracleMin : public ExprOracle {
+public:
+    explicit ExprOracleMin(const Tree& e) : ExprOracle(e) {}
+    void evalArray(Eigen::Block<Eigen::Array<float, Eigen::Dynamic, LIBFIVE_EVAL_ARRAY_SIZE, Eigen::RowMajor>,
+                                1, Eigen::Dynamic> out) override { Oracle::evalArray(out); }
+    void evalDerivs(Eigen::Block<Eigen::Array<float, 3, Eigen::Dynamic>, 3, 1, true> out, size_t index = 0) override {
+        OracleStorage<>::evalDerivs(out, index);
+    }
+    void evalDerivArray(Eigen::Block<Eigen::Array<float, 3, LIBFIVE_EVAL_ARRAY_SIZE>, 3, Eigen::Dynamic, true> out) override {
+        Oracle::evalDerivArray(out);
+    }
+    void checkAmbiguous(Eigen::Block<Eigen::Array<bool, 1, LIBFIVE_EVAL_ARRAY_SIZE>, 1, Eigen::Dynamic> out) override {
+        // ambiguity per stored point, from the feature count (the batch state of the private evaluator is not used here)
+        for (unsigned i = 0; i < out.cols(); ++i) {
+            auto keep = points.col(0).eval();
+            points.col(0) = points.col(i);
+            boost::container::small_vector<Feature, 4> fs;
+            evalFeatures(fs);
+            points.col(0) = keep;
+            if (fs.size() > 1) out(i) = true;
+        }
+    }
+    ALIGNED_OPERATOR_NEW_AND_DELETE(ExprOracleMin)
+};
 class ExprOracleClause : public OracleClause {
 public:
-    ExprOracleClause(const Tree& e, int k) : e(e), k(k) {}
-    std::unique_ptr<Oracle> getOracle() const override { return std::make_unique<ExprOracle>(e); }
+    // every other clause created by this process hands out the minimal oracle (library defaults for batches / gradients)
+    ExprOracleClause(const Tree& e, int k) : e(e), k(k) { static int serial = 0; minimal = (serial++ % 2) == 1; }
+    std::unique_ptr<Oracle> getOracle() const override {
+        if (minimal) return std::make_unique<ExprOracleMin>(e);
+        return std::make_unique<ExprOracle>(e);
+    }
+    bool minimal = false;
     std::string name() const override { return "ExprOracle" + std::to_string(k); }
     Tree e; int k;
 };
@@ -1155,7 +1186,7 @@ int main(int argc, char** argv) {
                 Evaluator eo(H(t[1])), ee(H(t[2]));
                 int nb = std::stoi(t[3]);
                 auto tape = eo.getDeck()->tape;
-                int pts = 0, gpts = 0, gbad = 0, fpts = 0, fbad = 0, fmiss = 0, ibad = 0, pbad = 0, ppts = 0, abad = 0;
+                int pts = 0, gpts = 0, gbad = 0, fpts = 0, fbad = 0, fmiss = 0, ibad = 0, pbad = 0, ppts = 0, abad = 0, bpts = 0, bbad = 0;
                 std::string info;
                 auto note = [&](const std::string& what, const Eigen::Vector3f& p) {
                     if (info.empty()) info = " first=" + what + "@" + hex32(p.x()) + "," + hex32(p.y()) + "," + hex32(p.z());
@@ -1309,11 +1340,43 @@ int main(int argc, char** argv) {
                             }
                         }
                     }
+                    {   // batches: a slot of a batch answers like a single-point query, gradients included, and a second
+                        // evaluation of the SAME stored points (no set() in between, as the meshers do with
+                        // derivs / getAmbiguous / values) repeats the first
+                        const int n = 3 + (b * 5) % 14;
+                        std::vector<Eigen::Vector3f, Eigen::aligned_allocator<Eigen::Vector3f>> bp;
+                        for (int k2 = 0; k2 < n; ++k2) {
+                            Eigen::Vector3f p;
+                            for (int a = 0; a < 3; ++a) p(a) = lo(a) + d01(rng) * (hi(a) - lo(a));
+                            bp.push_back(p);
+                        }
+                        for (int k2 = 0; k2 < n; ++k2) eo.set(bp[k2], k2);
+                        Eigen::Array<float, 4, Eigen::Dynamic> D1 = eo.derivs(n);
+                        Eigen::Array<bool, 1, Eigen::Dynamic> A1 = eo.getAmbiguous(n);
+                        Eigen::Array<float, 1, Eigen::Dynamic> V2 = eo.values(n);
+                        Eigen::Array<float, 4, Eigen::Dynamic> D2 = eo.derivs(n);
+                        std::fesetround(FE_TONEAREST);
+                        auto feq = [](float a, float b2) { return (std::isnan(a) && std::isnan(b2)) || memcmp(&a, &b2, 4) == 0 || a == b2; };
+                        for (int k2 = 0; k2 < n; ++k2) {
+                            ++bpts;
+                            float v1 = eo.value(bp[k2]);
+                            bool amb1 = eo.getAmbiguous(1)(0);
+                            Eigen::Vector4f d1 = eo.deriv(bp[k2]);
+                            std::fesetround(FE_TONEAREST);
+                            bool ok = feq(V2(k2), v1) && feq(D1(3, k2), v1) && feq(D2(3, k2), v1);
+                            for (int a = 0; a < 3 && ok; ++a) ok = feq(D1(a, k2), D2(a, k2));
+                            // gradients: only where no min / max tie makes the choice of branch a matter of slot state
+                            if (ok && !amb1 && !A1(k2)) for (int a = 0; a < 3 && ok; ++a) ok = feq(D1(a, k2), d1(a));
+                            if (ok && amb1 != A1(k2)) ok = false;
+                            if (!ok) { ++bbad; note("batch-slot" + std::to_string(k2) + "/" + std::to_string(n), bp[k2]); }
+                        }
+                    }
                     tape = pushed;
                 }
                 out("OC pts=" + std::to_string(pts) + " gpts=" + std::to_string(gpts) + " gbad=" + std::to_string(gbad)
                     + " fpts=" + std::to_string(fpts) + " fbad=" + std::to_string(fbad) + " fmiss=" + std::to_string(fmiss) + " ibad=" + std::to_string(ibad)
-                    + " ppts=" + std::to_string(ppts) + " pbad=" + std::to_string(pbad) + " abad=" + std::to_string(abad) + info);
+                    + " ppts=" + std::to_string(ppts) + " pbad=" + std::to_string(pbad) + " abad=" + std::to_string(abad)
+                    + " bpts=" + std::to_string(bpts) + " bbad=" + std::to_string(bbad) + info);
             }
             else if (c == "progress") {
                 // progress h alg workers minfeat lx ly lz ux uy uz scenario
